@@ -50,6 +50,7 @@ class Registry:
         self.axioms = []         # (name, vars {name: sort}, expr)
         self.link_axioms = set()
         self.lib_values = {}         # dotted library name -> python constant
+        self.shared_state = {}       # "module.NAME" -> why reading this module-level mutable object as an opaque value is sound for the contracts
         self.type_aliases = {}       # annotation name -> shape (used for `xs: List["Name"] = []`)
         self.axiom_patterns = {}
         self.inline_closure_args = set()   # targets executed inline (contract not used) when a local closure is passed to them
